@@ -280,7 +280,8 @@ impl Property for C08 {
         tier.pick(5_000_000, 80_000_000)
     }
     fn rule() -> String {
-        "Multisets of 0-40 integer-valued coordinates (as f64 up to 2^52, or i64 below 2^29): tiny lattices with duplicates and many \
+        "Multisets of 0-40 integer-valued coordinates (as f64 up to 2^52, with every other zero spelled -0.0 in a third of the cases, \
+         or as i64 below 2^30 incl. the nearly-parallel-rows family at 2^26..2^30): tiny lattices with duplicates and many \
          collinear points, all-collinear sets, fewer than four points, three nearly parallel rows at magnitude 2^40..2^52 (ties and \
          rounding in the farthest-point search), random points, lattices at large offsets; passed to quick_hull, graham_hull(false) \
          and convex_hull() (as MultiPoint / LineString / Polygon). Oracle: exact strict monotone-chain hull in i128. Checked when \
